@@ -376,7 +376,9 @@ spec_stream = generic_stream(
 
 def _meta_dist(dist, o, kv):
     dist["kind_" + str(o.get("kind"))] += 1
-    if o.get("kind") == "selection":
+    if o.get("kind") == "bench":
+        dist["bench_%s_nc%s" % (o.get("problem"), o.get("nc"))] += 1
+    elif o.get("kind") == "selection":
         dist["sel_n_%s" % o.get("n")] += 1
         dist["sel_pressure_%s" % ("0" if o.get("pressure") == 0 else "1" if o.get("pressure") == 1 else "mid")] += 1
     else:
@@ -388,7 +390,8 @@ META_SLICE = {"C14": "rej/mutate", "C15": "rej/", "C17": "rej/selection"}
 meta_stream = generic_stream(
     "META", "meta", None,
     lambda pid, acc: acc.startswith(META_SLICE.get(pid, "rej/")),
-    ("kind", "input", "input_bits", "rng_seed", "calls", "kept", "n", "pressure", "pressure_bits", "samples", "counts"),
+    ("kind", "input", "input_bits", "rng_seed", "calls", "kept", "n", "pressure", "pressure_bits", "samples", "counts",
+     "problem", "nc", "budget", "order_seed", "f_init", "f_best", "best", "completed"),
     lambda o, kv: True,
     _meta_dist)
 
@@ -556,8 +559,9 @@ PROPS = {
                              {"kind": "ops", "name": "p1", "profile": "p1", "count": {"quick": 160, "thorough": 2000}, "salt": 131},
                              {"kind": "ops", "name": "p0", "profile": "p0", "count": {"quick": 96, "thorough": 1000}, "salt": 130}]),
     "C17": _ops_prop("C17", [{"kind": "ops", "name": "p1", "profile": "p1", "count": {"quick": 320, "thorough": 6000}, "salt": 17},
-                             {"kind": "meta", "name": "selection", "profile": "mixed", "count": {"quick": 120, "thorough": 3000}, "salt": 171}],
-                     tested=["benchmark battery (known-optimum problems) and 'within a few attempts' for reals/ints: statements about one pseudo-random trajectory, tested only",
+                             {"kind": "meta", "name": "selection", "profile": "mixed", "count": {"quick": 120, "thorough": 3000}, "salt": 171},
+                             {"kind": "meta", "name": "bench", "profile": "bench", "count": {"quick": 64, "thorough": 1600}, "salt": 172}],
+                     tested=["benchmark battery (8 known-optimum problems x concurrency {1,4} x completion orders chosen by the harness, thresholds in MetaCheck.bench_ok) and 'within a few attempts' for ints: statements about pseudo-random trajectories, tested only; for reals the rule 'a lively interior real changes at probability 1' is checked on every p=1 mutation",
                              "that SelectionImpl::select_ref has the distribution Selection.sel_dist (proved monotone in the rank): 6000 samples per case against the exact rational probabilities within 3 + 7 sigma, plus the source-shape fact select_ref_is_bernoulli_walk_then_uniform"]),
     "C10": {
         "propfile": "theories/Properties/C10.v",
